@@ -801,6 +801,16 @@ def run_execution(case: dict, *, max_invocations: int | None = None, hooks: dict
                         _deliver(backend, op, e)
                         delivered_ext.add(key)
                         progressed = True
+                if not progressed and backend.version > boto.last_version:
+                    progressed = True  # something completed after the SDK's last look: the service re-invokes at once
+                if not progressed and backend.next_timer() is None:
+                    # only external parties can move the execution on: time passes until one of them answers
+                    outs = [op for op in backend.outstanding_external() if op["Id"] not in delivered_ext]
+                    if outs:
+                        op = outs[0]
+                        _deliver(backend, op, ext.get(op.get("_path")) or _default_ext(op))
+                        delivered_ext.add(op["Id"])
+                        progressed = True
                 if not progressed:
                     nt = backend.next_timer()
                     if nt is None:
